@@ -39,6 +39,7 @@ RULE = ("main: the lock-ownership monitor (every SyncState.updated call must com
         "API call or >=3 engine steps that wrote state; threads - >=2 manager threads performed >=1 state write each "
         "while a user op was in flight.")
 ASSUMPTIONS = [
+    "part threads: waiting for quiet is capped at 30 s (inconclusive beyond); if work is pending and for 12 s no engine thread makes a provider call, consumes an event or changes the pending set, the run is a violation (the loops are not running), not a timeout",
     "CPython RLock._is_owned() is used to ask whether the current thread owns the state lock",
     "part 'threads' samples OS schedules; the deterministic monitor (main) is what decides the lock clause",
     "application threads do not call CloudSync.busy while the engine threads run in part 'threads' (it shares the event queue with the event thread)",
@@ -310,9 +311,13 @@ def gen_threads(d, tier):
     return {"cfg": cfg, "acts": out, "meta": {"excluded": dict(world.excluded)}}
 
 
-def _wait_quiet(case, cap=20.0):
+def _wait_quiet(case, cap=30.0, stall=12.0):
+    """True = quiet; False = still busy when the cap ran out (inconclusive); "stalled" = work is pending but for
+    `stall` seconds no engine thread issued a single provider call, consumed an event or changed the pending set
+    (that is not slowness: the loops are not running)."""
     t0 = time.time()
     okn = 0
+    last_sig, last_change = None, time.time()
     while time.time() - t0 < cap:
         cs = case.cs
         q = cs.state.changeset_len == 0 and all(p._cursor >= p._latest_cursor for p in case.prov) \
@@ -321,8 +326,21 @@ def _wait_quiet(case, cap=20.0):
         okn = okn + 1 if q else 0
         if okn >= 5:
             return True
+        sig = (len(case.calls), cs.state.changeset_len, tuple(p._cursor for p in case.prov))
+        if sig != last_sig:
+            last_sig, last_change = sig, time.time()
+        elif not q and time.time() - last_change >= stall:
+            return "stalled"
         time.sleep(0.004)
     return False
+
+
+def _stall_msg(case):
+    cs = case.cs
+    return ("cs.start() is running, work is pending (pending set %d, unread events %s) but for 12 s no engine thread made "
+            "a provider call or consumed an event; threads alive: %s" % (
+                cs.state.changeset_len, [p._latest_cursor - p._cursor for p in case.prov],
+                sorted(t.name for t in threading.enumerate() if t is not threading.current_thread())))
 
 
 def run_threads(trace):
@@ -365,9 +383,15 @@ def run_threads(trace):
                 _app_call(case, a[1])
                 case.in_engine = True
             elif a[0] == "settle":
-                if not _wait_quiet(case):
+                wq = _wait_quiet(case)
+                if wq == "stalled":
+                    return violation("threaded_makes_progress", _stall_msg(case))
+                if not wq:
                     return ok(labels=["inconclusive_timeout"])
-        if not _wait_quiet(case):
+        wq = _wait_quiet(case)
+        if wq == "stalled":
+            return violation("threaded_makes_progress", _stall_msg(case))
+        if not wq:
             return ok(labels=["inconclusive_timeout"])
         case.cs.stop(forever=True, wait=True)
         started = False
